@@ -331,7 +331,7 @@ def _check_object_from_file(query, filepath, allow_custom, version, encoding):
     try:
         with io.open(filepath, "r", encoding=encoding) as f:
             stix_json = json.load(f)
-    except ValueError:  # not a JSON file
+    except (ValueError, RecursionError):  # not a JSON file (or one nested too deeply to read)
         raise TypeError(
             "STIX JSON object at '{0}' could either not be parsed "
             "to JSON or was not valid STIX JSON".format(filepath),
